@@ -5,6 +5,7 @@ import (
 	"os"
 	"path/filepath"
 	"strings"
+	"syscall"
 
 	"pgregory.net/rapid"
 
@@ -19,12 +20,14 @@ type GraphBinCase struct {
 	// ProjDir names the directory holding the spokfile ("" = proj)
 	ProjDir string `json:"proj_dir,omitempty"`
 	// Invoke: how spok is pointed at the project (sandbox.Box.Invoke)
-	Invoke string   `json:"invoke,omitempty"`
-	N      int      `json:"n"`
-	Edges  [][2]int `json:"edges"` // i depends on j
-	Via    string   `json:"via"`   // name default clean
-	Undef  int      `json:"undef"` // task that also depends on an undefined name (-1: none)
-	Flags  []string `json:"flags"`
+	Invoke string `json:"invoke,omitempty"`
+	// Outputs: "files" = standard output and error are regular files (sandbox.Box.FileOutputs)
+	Outputs string   `json:"outputs,omitempty"`
+	N       int      `json:"n"`
+	Edges   [][2]int `json:"edges"` // i depends on j
+	Via     string   `json:"via"`   // name default clean
+	Undef   int      `json:"undef"` // task that also depends on an undefined name (-1: none)
+	Flags   []string `json:"flags"`
 	// Req (Via == "name" only): the tasks named on the command line, in order, repeats allowed
 	// (empty = just task 0); ReqUndef > 0 puts an undefined name at position ReqUndef-1 of that list
 	Req      []int `json:"req,omitempty"`
@@ -41,6 +44,13 @@ type GraphBinCase struct {
 	// the run is under way. spok may then stop with an error about its cache; whatever it does, no task
 	// runs twice and no dependent runs before its dependency.
 	Saboteur int `json:"saboteur,omitempty"`
+	// UndefName: how the undefined requested name is spelled ("" = notatask); an empty or blank
+	// argument, or a defined name in other letter case, names no task either.
+	UndefName *string `json:"undef_name,omitempty"`
+	// Bystander: the spokfile also defines a task nobody asks for whose dependency is a recursive glob,
+	// and the project holds entries a walk can trip over (a link to itself, a link to nowhere, a named
+	// pipe). None of that concerns the selected tasks.
+	Bystander bool `json:"bystander,omitempty"`
 }
 
 var gbNames = []string{"alpha", "bravo", "charlie", "delta"}
@@ -81,6 +91,9 @@ func (c GraphBinCase) source() string {
 		}
 		fmt.Fprintf(&b, "task %s(%s) {\n    echo begin%d >> $LOG\n%s    echo end%d >> $LOG\n}\n\n", c.name(i), strings.Join(args, ", "), i, make, i)
 	}
+	if c.Bystander {
+		b.WriteString("task zulu(\"**/*.zz\") {\n    echo begin9 >> $LOG\n    echo end9 >> $LOG\n}\n")
+	}
 	return b.String()
 }
 
@@ -88,6 +101,7 @@ func genGraphBin(t *rapid.T) GraphBinCase {
 	c := genGraphBinBody(t)
 	c.ProjDir = genProjDir(t)
 	c.Invoke = genInvoke(t)
+	c.Outputs = genOutputs(t)
 	return c
 }
 
@@ -131,14 +145,19 @@ func genGraphBinBody(t *rapid.T) GraphBinCase {
 		}
 	}
 	if c.Via == "name" && rapid.Bool().Draw(t, "several_requests") {
-		k := rapid.IntRange(2, 4).Draw(t, "nreq")
+		k := rapid.IntRange(1, 4).Draw(t, "nreq")
 		for i := 0; i < k; i++ {
 			c.Req = append(c.Req, rapid.IntRange(0, n-1).Draw(t, "req"))
 		}
 		if rapid.IntRange(0, 4).Draw(t, "req_undef") == 0 {
 			c.ReqUndef = 1 + rapid.IntRange(0, k).Draw(t, "req_undef_pos")
+			if rapid.Bool().Draw(t, "req_undef_odd") {
+				name := rapid.SampledFrom([]string{"", " ", "\t", "ALPHA", "alpha ", " alpha", "alph", "alphaa"}).Draw(t, "req_undef_name")
+				c.UndefName = &name
+			}
 		}
 	}
+	c.Bystander = rapid.IntRange(0, 3).Draw(t, "bystander") == 0
 	return c
 }
 
@@ -146,6 +165,7 @@ func execGraphBin(s *ev.Shard, b *sandbox.Box, c GraphBinCase) *rp.Fail {
 	if err := b.ResetFor(c.ProjDir, c.Invoke); err != nil {
 		return &rp.Fail{Sig: "harness", Msg: err.Error()}
 	}
+	b.FileOutputs = c.Outputs == "files"
 	src := c.source()
 	if err := writeProject(b, b.Proj, map[string]string{"spokfile": src}); err != nil {
 		return &rp.Fail{Sig: "harness", Msg: err.Error()}
@@ -158,6 +178,16 @@ func execGraphBin(s *ev.Shard, b *sandbox.Box, c GraphBinCase) *rp.Fail {
 			}
 		}
 	}
+	if c.Bystander {
+		junk := filepath.Join(b.Proj, "junk")
+		if err := os.MkdirAll(filepath.Join(junk, "deep"), 0o755); err != nil {
+			return &rp.Fail{Sig: "harness", Msg: err.Error()}
+		}
+		_ = os.Symlink("loop", filepath.Join(junk, "loop"))
+		_ = os.Symlink("nowhere", filepath.Join(junk, "deep", "dangling"))
+		_ = syscall.Mkfifo(filepath.Join(junk, "pipe.zz.d"), 0o644)
+		_ = b.Own()
+	}
 	var sel []string
 	switch c.Via {
 	case "name":
@@ -169,7 +199,11 @@ func execGraphBin(s *ev.Shard, b *sandbox.Box, c GraphBinCase) *rp.Fail {
 			}
 			if c.ReqUndef > 0 {
 				k := c.ReqUndef - 1
-				sel = append(sel[:k:k], append([]string{"notatask"}, sel[k:]...)...)
+				undef := "notatask"
+				if c.UndefName != nil {
+					undef = *c.UndefName
+				}
+				sel = append(sel[:k:k], append([]string{undef}, sel[k:]...)...)
 			}
 		}
 	case "clean":
